@@ -24,7 +24,8 @@ import (
 //
 // Props/C15.lean identifies the table with what the model assumes (each goroutine writes its
 // own slot / its own role and an error accumulator of which only nil-ness is used).
-// The same file carries the facts of pruningFacts (below): which roles a load keeps.
+// The same file carries the facts of pruningFacts (below): which roles a load keeps, and of
+// includeFacts (inclfacts.go): the steps of includeRole.ProcessTemplates and their order.
 func genFacts(repo string) (string, error) {
 	type fact struct {
 		fn     string
@@ -182,6 +183,11 @@ func genFacts(repo string) (string, error) {
 		return "", err
 	}
 	b.WriteString(pf)
+	inf, err := includeFacts(repo)
+	if err != nil {
+		return "", err
+	}
+	b.WriteString(inf)
 	b.WriteString("end Gen\n")
 	return b.String(), nil
 }
